@@ -123,5 +123,5 @@ PROP = Property(
         "SIZE(1..MAX) constraints are not enforced (empty lists decode to empty lists)",
     ],
     selftest=_selftest,
-    technique="property-based differential testing against an independent RFC 4511 reference decoder",
+    technique="property-based differential testing against an independent RFC 4511 reference decoder + exhaustive boundary / magic-value sweep + near-collision twins",
 )
